@@ -253,8 +253,12 @@ class IoWorld(World):
             g["kind"] = kind
             tspec = g
         st = {"op": "write_csv", "path": path, "track": tspec, "ids": ids,
-              "sep": sep, "h": 1 if r.random() < 0.15 else 0}
-        if r.random() < 0.25:
+              "sep": sep, "h": r.choice([1, 1, 2, 3]) if r.random() < 0.2 else 0}
+        if r.random() < 0.12:
+            # the documented defaults: writeToFile(track, path) writes E, N separated by a comma
+            st.update({"ids": [0, 1, -1, -1], "sep": ",", "h": 0, "wapi": "defaults"})
+            use_t = False
+        elif r.random() < 0.25:
             st["wapi"] = "tocsv"
         f = self._fault(r, WRITE_FAULTS)
         if f:
@@ -586,6 +590,9 @@ class IoWorld(World):
                 self.fail("C13", "trackformat.raised", "TrackFormat(dict) raised %r" % (exc0,))
                 return "raised"
             rv, exc, fired = self._io_call(st, TrackWriter.writeToCsv, track, st["path"], tf)
+        elif st.get("wapi") == "defaults":
+            self.probe("write_with_default_layout")
+            rv, exc, fired = self._io_call(st, TrackWriter.writeToFile, track, st["path"])
         else:
             rv, exc, fired = self._io_call(st, TrackWriter.writeToFile, track, st["path"], ids[0], ids[1],
                                            ids[2], ids[3], st["sep"], st.get("h", 0))
